@@ -44,7 +44,9 @@ def case(draw, tier):
     if op == "isunique":
         keys = keys[1:]
     c = {"op": op, "table": tbl, "key": draw(st.sampled_from(keys)),
-         "buffersize": draw(gen.buffersizes(len(tbl) - 1))}
+         "buffersize": draw(gen.buffersizes(len(tbl) - 1)),
+         # the input may itself be a petl view: already sorted by the first key field (either direction), wrapped, cached
+         "upstream": draw(st.sampled_from(["none", "none", "sortfirst", "sortfirst-rev", "wrap", "sortall"]))}
     if op == "conflicts":
         c["missing"] = draw(st.sampled_from([None, None] + p))
         c["fields"] = draw(st.sampled_from([None, ("exclude", hdr[-1]), ("include", hdr[-1]), ("include", list(hdr))]))
@@ -61,13 +63,35 @@ def _groups(tbl, key):
 def check(case, ctx):
     op, tbl, key, bs = case["op"], case["table"], case["key"], case["buffersize"]
     hdr = tuple(tbl[0])
-    idx, srt = _groups(tbl, key)
+    up = case.get("upstream", "none")
+    idx0 = list(range(len(hdr))) if key is None else R.resolve(hdr, key)
+    f0 = idx0[0] if idx0 else 0
+    # the effective input is what the upstream view yields (reference-sorted the same way)
+    eff = tbl
+    if up == "sortfirst":
+        eff = [list(r) for r in R.ref_sort(tbl, f0)]
+    elif up == "sortfirst-rev":
+        eff = [list(r) for r in R.ref_sort(tbl, f0, True)]
+    elif up == "sortall":
+        eff = [list(r) for r in R.ref_sort(tbl)]
+    idx, srt = _groups(eff, key)
     rows = srt[1:]
     kt = [R.keytuple(r, idx) for r in rows]
     mult = Counter(kt)
     ctx.label("op:" + op, "key:" + ("none" if key is None else type(key).__name__), "rows:%d" % min(len(rows), 3))
     ctx.nontrivial(any(v > 1 for v in mult.values()) and any(v == 1 for v in mult.values()))
     T = codec.snapshot(tbl)
+    # the upstream sort names its key the way the operator's key spec does (same field name or index)
+    k0 = f0 if key is None else (key[0] if isinstance(key, (list, tuple)) else key)
+    if up == "sortfirst":
+        T = etl.sort(T, k0)
+    elif up == "sortfirst-rev":
+        T = etl.sort(T, k0, reverse=True)
+    elif up == "sortall":
+        T = etl.sort(T)
+    elif up == "wrap":
+        T = etl.wrap(T)
+    ctx.label("upstream:" + up)
     kw = {} if bs is None else {"buffersize": bs}
     dup_exp = [r for r, k in zip(rows, kt) if mult[k] > 1]
     uniq_exp = [r for r, k in zip(rows, kt) if mult[k] == 1]
